@@ -300,6 +300,11 @@ func (c *Ctx) Ite(cond, a, b *Term) *Term {
 			return c.And(cond, a)
 		}
 	}
+	if a.W == 64 {
+		if r := c.tickIte(cond, a, b); r != nil {
+			return r
+		}
+	}
 	// ite(c, x, ite(c, y, z)) = ite(c, x, z)
 	if b.K == KIte && b.Args[0] == cond {
 		return c.Ite(cond, a, b.Args[2])
@@ -329,6 +334,11 @@ func (c *Ctx) Eq(a, b *Term) *Term {
 		}
 		if b.IsFalse() {
 			return c.Not(a)
+		}
+	}
+	if a.W == 64 {
+		if r := c.tickEq(a, b); r != nil {
+			return r
 		}
 	}
 	if a.IsConst() {
@@ -442,6 +452,21 @@ func (c *Ctx) bin(k Kind, a, b *Term) *Term {
 		}
 		return c.BV(r, w)
 	}
+	if w == 64 {
+		switch k {
+		case KAdd, KSub:
+			if r := c.tickBin(k, a, b); r != nil {
+				return r
+			}
+		case KMul:
+			if a.IsConst() {
+				a, b = b, a
+			}
+			if r := c.tickMul(a, b); r != nil {
+				return r
+			}
+		}
+	}
 	switch k {
 	case KAdd:
 		if a.IsConst() {
@@ -464,6 +489,14 @@ func (c *Ctx) bin(k Kind, a, b *Term) *Term {
 		}
 		if a == b {
 			return c.BV(0, w)
+		}
+		if a.K == KAdd {
+			if a.Args[0] == b {
+				return a.Args[1]
+			}
+			if a.Args[1] == b {
+				return a.Args[0]
+			}
 		}
 		// (x + k) - x = k ; (x+k1) - (x+k2)
 		ab, ak := splitAddConst(a)
@@ -639,6 +672,13 @@ func (c *Ctx) cmp(k Kind, a, b *Term) *Term {
 	}
 	if a.IsConst() && b.K == KIte && b.Args[1].IsConst() && b.Args[2].IsConst() {
 		return c.Ite(b.Args[0], c.cmp(k, a, b.Args[1]), c.cmp(k, a, b.Args[2]))
+	}
+	if w == 64 {
+		if _, isT := c.isMulT(a); isT || b.K == KMul {
+			if r := c.tickCmp(k, a, b); r != nil {
+				return r
+			}
+		}
 	}
 	ua, ub := ubound(a), ubound(b)
 	half := uint64(1) << uint(w-1)
